@@ -87,6 +87,19 @@ CHECKS = {
              "index >= 1; threaded runs under the controlled scheduler.",
         technique="fault-injection matrix + property-based testing with reference model",
     ),
+    "C16": dict(
+        category="exploration",
+        text="Stored layouts (free-form dtypes, chunkings incl. empty / zero-duration chunks, compressors) x "
+             "copy_to_frontend / stand-alone rechunker (serial, thread, process; in place, to new location, via the "
+             "script) / rechunk_on_load / per-chunk builds over every grouping of dependency chunks + "
+             "merge_per_chunk_storage; destination rows byte-equal to the reference, destination metadata "
+             "recomputed from independently decoded files, key / lineage unchanged, source directory hash unchanged "
+             "unless replace.",
+        design_ref="DESIGN.md §5 C16",
+        note="DataDirectory only; thread / process modes on real threads and pools (schedules not controlled); "
+             "process mode only in the thorough tier; numba helpers un-jitted.",
+        technique="property-based testing + exhaustive grouping enumeration, round trip with independent decoder",
+    ),
     "C18": dict(
         category="exploration",
         text="Reference hit finder / record linker / reduction mask / baseline / integrate written from the "
